@@ -1,3 +1,361 @@
-import LpModel.C09
+/-
+  C09 — interpolation results do not depend on the history of earlier calls.
+  Property theorems about the model `Lp.Interp` / `Lp.C09` of src/Numerics.cpp §1
+  (`Bisection`, `Hunt`, `Locate` and the queries built on them).  Helper lemmas are in
+  `LpProofs/C09/Locate.lean` and `LpProofs/C09/Object.lean`.
+-/
+import LpProofs.C09.Object
 namespace Lp.C09
+open Lp.Interp
+
+/-! ## The constructor establishes the table hypotheses -/
+
+theorem strictlyIncreasing_pairwise : ∀ l : List Rat, strictlyIncreasing l = true → l.Pairwise (· < ·)
+  | [], _ => List.Pairwise.nil
+  | [_], _ => List.pairwise_singleton _ _
+  | a :: b :: r, h => by
+    unfold strictlyIncreasing at h
+    simp only [Bool.and_eq_true, decide_eq_true_eq] at h
+    have ih := strictlyIncreasing_pairwise (b :: r) h.2
+    refine List.Pairwise.cons ?_ ih
+    intro c hc
+    rcases List.mem_cons.mp hc with hc | hc
+    · rw [hc]; exact h.1
+    · exact lt_trans h.1 (List.rel_of_pairwise_cons ih hc)
+
+theorem mono_of_pairwise (l : List Rat) (h : l.Pairwise (· < ·)) :
+    Mono l.length (fun i => l.toArray.getD i 0) := by
+  intro i j hij hj
+  have hi : i < l.length := by omega
+  have := (List.pairwise_iff_getElem.mp h) i j hi hj hij
+  simpa [Array.getD, hi, hj] using this
+
+/-- `mk` (the constructor) yields an object satisfying the table hypotheses and the invariant -/
+theorem mk_WF (xs ys : List Rat) (xdim fdim : Rat) (o : Obj) (h : mk xs ys xdim fdim = .ok o) : WF o := by
+  unfold mk at h
+  split at h
+  · cases h
+  · split at h
+    · cases h
+    · split at h
+      · cases h
+      · rename_i h1 h2 h3
+        injection h with h
+        subst h
+        have hsi : strictlyIncreasing xs = true := by simpa using h3
+        have hp := strictlyIncreasing_pairwise xs hsi
+        have hp' : (if xdim > 0 then xs.map (· * xdim) else xs).Pairwise (· < ·) := by
+          by_cases hx : xdim > 0
+          · simp only [hx, if_true]
+            exact (List.pairwise_map).mpr (hp.imp (fun hab => mul_lt_mul_of_pos_right hab hx))
+          · simp only [hx, if_false]; exact hp
+        have hlen : (if xdim > 0 then xs.map (· * xdim) else xs).length = xs.length := by
+          split <;> simp
+        refine ⟨⟨by show 3 ≤ xs.length; omega, ?_⟩, by show 0 + 2 ≤ xs.length; omega⟩
+        have := mono_of_pairwise _ hp'
+        rw [hlen] at this
+        exact this
+
+/-! ## [T1] `locate_inv`, `locate_brackets`, `locate_canonical` -/
+
+/-- `jLast ≤ N-2` is preserved by `Locate` (and `jLast` is the index returned), so the accesses
+    `x_values[jLast]`, `x_values[jLast+1]`, `x_values[jLast-1]` of `Hunt` are inside the table. -/
+theorem locate_inv {N : Nat} {x : Nat → Rat} (m : Mono N x) (hN : 3 ≤ N) (st : LState)
+    (hst : st.jLast + 2 ≤ N) (v : Rat) (j : Nat) (st' : LState) (h : locate N x st v = .ok (j, st')) :
+    st'.jLast + 2 ≤ N ∧ st'.jLast = j := by
+  rw [locate_closed m hN st hst v] at h
+  cases hc : locateCanon N x v with
+  | error e => rw [hc] at h; cases h
+  | ok j' =>
+    rw [hc] at h
+    injection h with h
+    injection h with h1 h2
+    subst h1 h2
+    exact ⟨locateCanon_bound m hN hc, rfl⟩
+
+/-- From **every** admissible search state and every abscissa of the domain — whether the index
+    is found by hunting upwards, hunting downwards or by bisection — `Locate` succeeds and the
+    index brackets the abscissa inside the table. -/
+theorem locate_brackets {N : Nat} {x : Nat → Rat} (m : Mono N x) (hN : 3 ≤ N) (st : LState)
+    (hst : st.jLast + 2 ≤ N) (v : Rat) (hlo : x 0 ≤ v) (hhi : v ≤ x (N - 1)) :
+    ∃ j st', locate N x st v = .ok (j, st') ∧ j + 2 ≤ N ∧ x j ≤ v ∧ v ≤ x (j + 1) ∧ (j + 2 < N → v < x (j + 1)) := by
+  have hd : ¬ (v < x 0 ∨ v > x (N - 1)) := by
+    intro c; rcases c with c | c <;> linarith
+  obtain ⟨j, hc, he⟩ := locateCanon_in m hN v hd
+  refine ⟨j, nst st j, ?_, hc⟩
+  rw [locate_closed m hN st hst v, he]
+
+/-- the raw searches, before the tie rule is applied (the three cases of `locate_brackets`) -/
+theorem hunt_brackets {N : Nat} {x : Nat → Rat} (m : Mono N x) (v : Rat) (jLast : Nat)
+    (hj : jLast + 2 ≤ N) (hlo : x 0 ≤ v) (hhi : v ≤ x (N - 1)) :
+    hunt N x v jLast + 2 ≤ N ∧ x (hunt N x v jLast) ≤ v ∧ v ≤ x (hunt N x v jLast + 1) :=
+  hunt_spec m v jLast hj hlo hhi
+
+theorem bisection_brackets {N : Nat} {x : Nat → Rat} (v : Rat) (hN : 2 ≤ N) (hlo : x 0 ≤ v) (hhi : v ≤ x (N - 1)) :
+    bisection x v 0 (N - 1) + 2 ≤ N ∧ x (bisection x v 0 (N - 1)) ≤ v ∧ v ≤ x (bisection x v 0 (N - 1) + 1) :=
+  bisect_spec v hN hlo hhi
+
+/-- The index (and whether the call stops with the diagnostic) is the same from all admissible
+    search states; with the tie rule of fix c70b127 this includes tabulated abscissae. -/
+theorem locate_canonical {N : Nat} {x : Nat → Rat} (m : Mono N x) (hN : 3 ≤ N) (st st' : LState)
+    (hst : st.jLast + 2 ≤ N) (hst' : st'.jLast + 2 ≤ N) (v : Rat) :
+    (locate N x st v).map Prod.fst = (locate N x st' v).map Prod.fst := by
+  rw [locate_closed m hN st hst v, locate_closed m hN st' hst' v]
+  cases locateCanon N x v <;> rfl
+
+/-- … and inside the domain it is the unique index with `x j ≤ v < x (j+1)` (`≤` for the last interval) -/
+theorem locate_unique {N : Nat} {x : Nat → Rat} (m : Mono N x) (hN : 3 ≤ N) (st : LState)
+    (hst : st.jLast + 2 ≤ N) (v : Rat) (hlo : x 0 ≤ v) (hhi : v ≤ x (N - 1)) (j : Nat) (hj : Canon N x v j) :
+    (locate N x st v).map Prod.fst = .ok j := by
+  obtain ⟨j', st', he, h⟩ := locate_brackets m hN st hst v hlo hhi
+  have : j' = j := Canon.unique m h hj
+  subst this
+  rw [he]; rfl
+
+/-- a tabulated abscissa is the left end of its interval, from every state (fix c70b127) -/
+theorem locate_at_knot {N : Nat} {x : Nat → Rat} (m : Mono N x) (hN : 3 ≤ N) (st : LState)
+    (hst : st.jLast + 2 ≤ N) (k : Nat) (hk : k + 2 ≤ N) :
+    (locate N x st (x k)).map Prod.fst = .ok k :=
+  locate_unique m hN st hst (x k) (m.le (Nat.zero_le _) (by omega)) (m.le (by omega) (by omega)) k
+    ⟨hk, le_refl _, le_of_lt (m k (k + 1) (by omega) (by omega)), fun _ => m k (k + 1) (by omega) (by omega)⟩
+
+/-! ## [T1] `history_independent` -/
+
+def mapAns {α : Type} (f : α → Ans) (p : Except Err α) : Except Err Ans :=
+  match p with
+  | .ok v => .ok (f v)
+  | .error e => .error e
+
+/-- the answer to a query as a function of table and prefactor alone -/
+def pAnswer (o : Obj) : Op → Except Err Ans
+  | .interp x => mapAns .val (pInterp o x)
+  | .deriv x k => mapAns .val (pDeriv o x k)
+  | .integ a b => mapAns .val (pInteg o a b)
+  | .locmin a b => mapAns .val (pLocalExt o false a b)
+  | .locmax a b => mapAns .val (pLocalExt o true a b)
+  | .globmin => .ok (.val (o.globalExt false))
+  | .globmax => .ok (.val (o.globalExt true))
+  | .locate x => mapAns .idx (locateCanon o.N o.x x)
+  | .setpref _ => .ok .unit
+  | .mult _ => .ok .unit
+  | .copy => .ok .unit
+
+/-- the prefactor after one call -/
+def prefStep (p : Rat) : Op → Rat
+  | .setpref q => q
+  | .mult q => p * q
+  | _ => p
+
+theorem prefAfter_cons (p : Rat) (op : Op) (r : List Op) : prefAfter p (op :: r) = prefAfter (prefStep p op) r := by
+  cases op <;> rfl
+
+theorem step_of_closed {α : Type} {o : Obj} {st : LState} (op : Op) (f : α → Ans)
+    (r : Except Err (α × Obj)) (p : Except Err α)
+    (hstep : step { o with st := st } op = liftAns f r)
+    (hans : pAnswer o op = mapAns f p)
+    (hpref : prefStep o.pref op = o.pref)
+    (h : Closed o r p) :
+    match pAnswer o op with
+    | .ok a => ∃ st', Inv o st' ∧ step { o with st := st } op = .ok (a, { o with pref := prefStep o.pref op, st := st' })
+    | .error e => step { o with st := st } op = .error e := by
+  rw [hans, hstep, hpref]
+  unfold Closed at h
+  cases p with
+  | error e => simp only at h; rw [h]; rfl
+  | ok a => obtain ⟨st', i, e⟩ := h; exact ⟨st', i, by rw [e]; rfl⟩
+
+/-- one call from any admissible state: the answer is `pAnswer`, the table is untouched, the
+    prefactor changes only through `Set_Prefactor`/`Multiply`, the new state is admissible -/
+theorem step_spec (o : Obj) (t : Tbl o) (st : LState) (hst : Inv o st) (op : Op) :
+    match pAnswer o op with
+    | .ok a => ∃ st', Inv o st' ∧ step { o with st := st } op = .ok (a, { o with pref := prefStep o.pref op, st := st' })
+    | .error e => step { o with st := st } op = .error e := by
+  cases op with
+  | interp x => exact step_of_closed _ Ans.val _ _ rfl rfl rfl (closed_interpolate o t st hst x)
+  | deriv x k => exact step_of_closed _ Ans.val _ _ rfl rfl rfl (closed_derivative o t st hst x k)
+  | integ a b => exact step_of_closed _ Ans.val _ _ rfl rfl rfl (closed_integrate o t st hst a b)
+  | locmin a b => exact step_of_closed _ Ans.val _ _ rfl rfl rfl (closed_localExt o t st hst false a b)
+  | locmax a b => exact step_of_closed _ Ans.val _ _ rfl rfl rfl (closed_localExt o t st hst true a b)
+  | locate x => exact step_of_closed _ Ans.idx _ _ rfl rfl rfl (closed_locate o t st hst x)
+  | globmin => exact ⟨st, hst, rfl⟩
+  | globmax => exact ⟨st, hst, rfl⟩
+  | setpref p => exact ⟨st, hst, rfl⟩
+  | mult p => exact ⟨st, hst, rfl⟩
+  | copy => exact ⟨st, hst, rfl⟩
+
+/-- the answer to a single query does not depend on the search state -/
+theorem answer_pure (o : Obj) (t : Tbl o) (st : LState) (hst : Inv o st) (q : Op) :
+    answer { o with st := st } q = pAnswer o q := by
+  have h := step_spec o t st hst q
+  unfold answer
+  cases hp : pAnswer o q with
+  | error e => rw [hp] at h; simp only at h; rw [h]
+  | ok a => rw [hp] at h; obtain ⟨st', _, e⟩ := h; rw [e]
+
+/-- a history changes nothing but the prefactor (as `prefAfter` says) and the search state,
+    which stays admissible -/
+theorem run_spec : ∀ (h : List Op) (o : Obj) (_ : Tbl o) (st : LState) (_ : Inv o st) (as : List Ans) (o' : Obj),
+    run { o with st := st } h = .ok (as, o') →
+    ∃ st', Inv o st' ∧ o' = { o with pref := prefAfter o.pref h, st := st' }
+  | [], o, _, st, hst, as, o', hr => by
+    unfold run at hr
+    injection hr with hr
+    injection hr with _ h2
+    exact ⟨st, hst, h2.symm⟩
+  | op :: r, o, t, st, hst, as, o', hr => by
+    have hs := step_spec o t st hst op
+    unfold run at hr
+    cases hp : pAnswer o op with
+    | error e =>
+      rw [hp] at hs; simp only at hs
+      rw [hs] at hr; cases hr
+    | ok a =>
+      rw [hp] at hs
+      obtain ⟨st1, i1, e1⟩ := hs
+      rw [e1] at hr
+      simp only at hr
+      cases hr2 : run { o with pref := prefStep o.pref op, st := st1 } r with
+      | error e => rw [hr2] at hr; cases hr
+      | ok p =>
+        obtain ⟨as2, o2⟩ := p
+        rw [hr2] at hr
+        simp only at hr
+        injection hr with hr
+        injection hr with _ h2
+        subst h2
+        have t' : Tbl { o with pref := prefStep o.pref op } := ⟨t.hN, t.mono⟩
+        obtain ⟨st', i', e'⟩ := run_spec r { o with pref := prefStep o.pref op } t' st1 i1 as2 o2 hr2
+        refine ⟨st', i', ?_⟩
+        rw [e', prefAfter_cons]
+
+/-- **History independence.** After every call history `h` that the object survives, every
+    query `q` (evaluation, derivative of any order, integral, local/global extremum, index
+    look-up) returns exactly what the never-queried object returns — given the prefactor the
+    history's `Set_Prefactor`/`Multiply` calls leave behind; these calls alter nothing else. -/
+theorem history_independent (o : Obj) (hwf : WF o) (h : List Op) (o' : Obj) (hr : after o h = .ok o') (q : Op) :
+    answer o' q = answer { o with pref := prefAfter o.pref h } q := by
+  unfold after at hr
+  cases hrun : run o h with
+  | error e => rw [hrun] at hr; cases hr
+  | ok p =>
+    obtain ⟨as, o2⟩ := p
+    rw [hrun] at hr
+    injection hr with hr
+    subst hr
+    obtain ⟨st', i', e'⟩ := run_spec h o hwf.tbl o.st hwf.inv as o2 hrun
+    have t' : Tbl { o with pref := prefAfter o.pref h } := ⟨hwf.tbl.hN, hwf.tbl.mono⟩
+    rw [e']
+    exact (answer_pure { o with pref := prefAfter o.pref h } t' st' i' q).trans
+      (answer_pure { o with pref := prefAfter o.pref h } t' o.st hwf.inv q).symm
+
+/-- histories without `Set_Prefactor`/`Multiply`: the used object answers as the new one -/
+theorem history_independent_same_pref (o : Obj) (hwf : WF o) (h : List Op) (o' : Obj) (hr : after o h = .ok o')
+    (hp : prefAfter o.pref h = o.pref) (q : Op) : answer o' q = answer o q := by
+  have := history_independent o hwf h o' hr q
+  rw [hp] at this
+  exact this
+
+/-- the invariant `jLast ≤ N-2` and the table hypotheses hold after every history (object level
+    `locate_inv`), so the theorems above apply again to the used object and to its copies -/
+theorem run_WF (o : Obj) (hwf : WF o) (h : List Op) (o' : Obj) (hr : after o h = .ok o') : WF o' := by
+  unfold after at hr
+  cases hrun : run o h with
+  | error e => rw [hrun] at hr; cases hr
+  | ok p =>
+    obtain ⟨as, o2⟩ := p
+    rw [hrun] at hr
+    injection hr with hr
+    subst hr
+    obtain ⟨st', i', e'⟩ := run_spec h o hwf.tbl o.st hwf.inv as o2 hrun
+    rw [e']
+    exact ⟨⟨hwf.tbl.hN, hwf.tbl.mono⟩, i'⟩
+
+/-! ## `prefactor_only`: `Set_Prefactor`/`Multiply` scale evaluations and derivatives exactly
+    (the integral and the extrema are C08's `prefactor_scaling`) -/
+
+theorem cubicAt_pref (o : Obj) (p : Rat) (j : Nat) (v : Rat) :
+    Obj.cubicAt { o with pref := p } j v = p * Obj.cubicAt { o with pref := 1 } j v := by
+  show p * _ = p * (1 * _)
+  rw [one_mul]
+  rfl
+
+theorem prefactor_only_interp (o : Obj) (p : Rat) (v : Rat) :
+    pInterp { o with pref := p } v = (pInterp { o with pref := 1 } v).map (p * ·) := by
+  unfold pInterp
+  show (match locateCanon o.N o.x v with
+    | .ok j => Except.ok (Obj.cubicAt { o with pref := p } j v)
+    | .error e => .error e) = Except.map (p * ·) (match locateCanon o.N o.x v with
+    | .ok j => Except.ok (Obj.cubicAt { o with pref := 1 } j v)
+    | .error e => .error e)
+  cases locateCanon o.N o.x v with
+  | error e => rfl
+  | ok j => simp only [Except.map]; rw [cubicAt_pref]
+
+theorem dval_pref (o : Obj) (p : Rat) (j : Nat) (v : Rat) (k : Nat) :
+    dval { o with pref := p } j v k = p * dval { o with pref := 1 } j v k := by
+  rcases k with _ | _ | _ | _ | k
+  · exact cubicAt_pref o p j v
+  · show p * _ = p * (1 * _)
+    rw [one_mul]
+    rfl
+  · show p * _ = p * (1 * _)
+    rw [one_mul]
+    rfl
+  · show p * _ = p * (1 * _)
+    rw [one_mul]
+    rfl
+  · show (0 : Rat) = p * 0
+    rw [mul_zero]
+
+theorem prefactor_only_deriv (o : Obj) (p : Rat) (v : Rat) (k : Nat) :
+    pDeriv { o with pref := p } v k = (pDeriv { o with pref := 1 } v k).map (p * ·) := by
+  unfold pDeriv
+  show (match locateCanon o.N o.x v with
+    | .ok j => Except.ok (dval { o with pref := p } j v k)
+    | .error e => .error e) = Except.map (p * ·) (match locateCanon o.N o.x v with
+    | .ok j => Except.ok (dval { o with pref := 1 } j v k)
+    | .error e => .error e)
+  cases locateCanon o.N o.x v with
+  | error e => rfl
+  | ok j => simp only [Except.map]; rw [dval_pref]
+
+
+/-! ## The two-dimensional object: two independent 1-D look-ups -/
+
+/-- `Interpolation_2D::Interpolate` returns the same value (or stops with the diagnostic alike)
+    whatever admissible search states its two helper objects `x_int`, `y_int` are in -/
+theorem interpolate2_state_independent (o : Obj2) (tx : Tbl o.ox) (ty : Tbl o.oy)
+    (sx sx' sy sy' : LState) (hx : Inv o.ox sx) (hx' : Inv o.ox sx') (hy : Inv o.oy sy) (hy' : Inv o.oy sy')
+    (vx vy : Rat) :
+    (Obj2.interpolate { o with ox := { o.ox with st := sx }, oy := { o.oy with st := sy } } vx vy).map Prod.fst =
+    (Obj2.interpolate { o with ox := { o.ox with st := sx' }, oy := { o.oy with st := sy' } } vx vy).map Prod.fst := by
+  unfold Obj2.interpolate
+  simp only [locate_obj o.ox tx sx hx vx, locate_obj o.ox tx sx' hx' vx, locate_obj o.oy ty sy hy vy,
+    locate_obj o.oy ty sy' hy' vy]
+  cases locateCanon o.ox.N o.ox.x vx with
+  | error e => rfl
+  | ok i =>
+    cases locateCanon o.oy.N o.oy.x vy with
+    | error e => rfl
+    | ok j => rfl
+
+/-! ## Non-vacuity -/
+
+/-- the zig-zag table of the fix commit's message meets the hypotheses of every theorem above -/
+def demo : Obj :=
+  { N := 5, xs := #[0, 1, 2, 3, 4], ys := #[0, 1, 0, 2, 0], pref := 1, st := { jLast := 0, corr := false } }
+
+theorem demo_mk : mk [0, 1, 2, 3, 4] [0, 1, 0, 2, 0] (-1) (-1) = .ok demo := by rfl
+
+example : WF demo := mk_WF _ _ _ _ _ demo_mk
+example : Mono demo.N demo.x := (mk_WF _ _ _ _ _ demo_mk).tbl.mono
+/-- a history that hunts upwards to the knot 3 and stops there (search state `jLast = 3`,
+    correlated); the second derivative asked for at that knot afterwards is the one of the new
+    object (before fix c70b127 the two differed: 24 vs 18 on the table of the commit message) -/
+example : after demo [.locate 2, .locate 3] = .ok { demo with st := { jLast := 3, corr := true } } := by rfl
+example : answer { demo with st := { jLast := 3, corr := true } } (.deriv 3 2) = answer demo (.deriv 3 2) :=
+  history_independent_same_pref demo (mk_WF _ _ _ _ _ demo_mk) [.locate 2, .locate 3] _ (by rfl) rfl _
+example : (locate demo.N demo.x { jLast := 2, corr := true } 3).map Prod.fst = .ok 3 :=
+  locate_at_knot (mk_WF _ _ _ _ _ demo_mk).tbl.mono (by decide) _ (by decide) 3 (by decide)
+
 end Lp.C09
